@@ -797,6 +797,83 @@ func validateSpaceAndExits(c *Ctx, r *Rep, fn, validate *ssa.Function, d *dpRend
 		v, isK := constBoolResult(ret)
 		r.Check(isK && !v, sprintf("reject|%s#%d", fk, n), c.Pos(ret.Pos()), why+": the answer is false", sprintf("%v (constant: %v)", v, isK))
 	}
+	// --- allowOther: the rejection for a missing mandatory attribute is decided attribute by attribute, i.e. inside
+	// a loop that runs over the profile's attribute list (a tally over the subject counts a repeated attribute twice)
+	{
+		loops := naturalLoops(fn)
+		var attrLike func(v ssa.Value, depth int) bool
+		attrLike = func(v ssa.Value, depth int) bool {
+			if sl, ok := v.Type().Underlying().(*types.Slice); ok {
+				if st, ok := sl.Elem().Underlying().(*types.Struct); ok {
+					for i := 0; i < st.NumFields(); i++ {
+						if st.Field(i).Name() == "Optional" {
+							return true
+						}
+					}
+				}
+			}
+			if mk, ok := v.(*ssa.MakeSlice); ok && depth < 2 {
+				if x, k, ok := lenPlus(mk.Len); ok && k == 0 {
+					return attrLike(x, depth+1)
+				}
+			}
+			return false
+		}
+		// the loop's bound is the length of the attribute list (or of a list made with that length); the length is
+		// taken in the header or, for a range loop, once before it
+		overAttributes := func(h *ssa.BasicBlock) bool {
+			iff, ok := lastInstr(h).(*ssa.If)
+			if !ok {
+				return false
+			}
+			bin, ok := iff.Cond.(*ssa.BinOp)
+			if !ok {
+				return false
+			}
+			for _, side := range []ssa.Value{bin.X, bin.Y} {
+				if x, isLen := lenOperand(side); isLen && attrLike(x, 0) {
+					return true
+				}
+			}
+			return false
+		}
+		readsAllowOther, n := false, 0
+		for _, ret := range returnsOf(fn) {
+			under := false
+			for _, g := range guardsOf(ret.Block()) {
+				if ld, ok := g.Cond.(*ssa.UnOp); ok && ld.Op == token.MUL && g.Truth {
+					if fa, ok := ld.X.(*ssa.FieldAddr); ok && fieldOfAddr(fa).Name() == "AllowOther" {
+						under = true
+					}
+				}
+			}
+			if !under {
+				continue
+			}
+			readsAllowOther = true
+			v, isK := constBoolResult(ret)
+			if !isK || v {
+				continue
+			}
+			n++
+			inLoop := false
+			for h, body := range loops {
+				if !overAttributes(h) {
+					continue
+				}
+				// an exit from inside the loop is not part of the natural loop: it lies behind the header's way into the body
+				for _, sc := range h.Succs {
+					if body[sc] && sc.Dominates(ret.Block()) {
+						inLoop = true
+					}
+				}
+			}
+			r.Check(inLoop, sprintf("mandatory-per-attribute|%s#%d", fk, n), c.Pos(ret.Pos()), "with other attributes allowed, the rejection is decided inside a loop over the profile's attributes (one decision per mandatory attribute)", sprintf("inside such a loop: %v", inLoop))
+		}
+		if readsAllowOther && n == 0 {
+			r.Undecided("shape:mandatory-per-attribute|"+fk, c.FnPos(fn), "no rejecting exit found where other attributes are allowed")
+		}
+	}
 	// --- allowOther: each mandatory attribute is searched for; found is false until an attribute equals it
 	for _, b := range fn.Blocks {
 		for _, ins := range b.Instrs {
